@@ -23,7 +23,35 @@ def close(a, b):
     return abs(a - b) <= REL * max(abs(a), abs(b)) + 1e-12
 
 
+FILE_VARIANT = ['plain']     # 'plain' | 'frozen' | 'subclass'
+
+
 def build(mido, tpb, specs, type_=1):
+    f = _build(mido, tpb, specs, type_)
+    if FILE_VARIANT[0] == 'frozen':
+        from mido.frozen import freeze_message
+        f.tracks = [mido.MidiTrack(freeze_message(m) for m in t)
+                    for t in f.tracks]
+    elif FILE_VARIANT[0] == 'subclass':
+        class MyMeta(mido.MetaMessage):
+            pass
+
+        class MyMsg(mido.Message):
+            pass
+        new = []
+        for t in f.tracks:
+            tr = mido.MidiTrack()
+            for m in t:
+                cls = MyMeta if m.is_meta else MyMsg
+                x = cls.__new__(cls)
+                vars(x).update(vars(m))
+                tr.append(x)
+            new.append(tr)
+        f.tracks = new
+    return f
+
+
+def _build(mido, tpb, specs, type_=1):
     tracks = []
     n = 0
     for ti, spec in enumerate(specs):
@@ -72,12 +100,20 @@ def exact_schedule(mido, f):
 def nosig(m):
     d = dict(vars(m))
     d.pop('time', None)
-    return (type(m).__name__, tuple(sorted(d.items())))
+    kind = 'MetaMessage' if getattr(m, 'is_meta', False) else 'Message'
+    return (kind, tuple(sorted(d.items())))
 
 
 def check_file(mido, tpb, specs, acc):
-    case = {'kind': 'file', 'tpb': tpb, 'tracks': [list(map(list, s))
-                                                   for s in specs]}
+    if FILE_VARIANT[0] == 'plain' and acc.evals % 7 == 0 and any(specs):
+        for v in ('frozen', 'subclass'):
+            FILE_VARIANT[0] = v
+            try:
+                check_file(mido, tpb, specs, acc)
+            finally:
+                FILE_VARIANT[0] = 'plain'
+    case = {'kind': 'file', 'tpb': tpb, 'variant': FILE_VARIANT[0],
+            'tracks': [list(map(list, s)) for s in specs]}
     f = build(mido, tpb, specs)
     sched = exact_schedule(mido, f)
     acc.evals += 1
@@ -138,9 +174,13 @@ DELAYS = (0.0, 0.25, 3.0)          # multiples of the gap to the next message
 OVERSHOOT = (0.0, 0.125)           # seconds added by a sleep that overshoots
 
 
-def run_play(mido, f, delays, overs, meta):
+CLOCK_STARTS = (100.0, 0.0, -7.5)
+
+
+def run_play(mido, f, delays, overs, meta, clock_start=100.0):
     import mido.midifiles.midifiles as mm
     clock = FakeClock()
+    clock.t = clock_start
     over_iter = iter(overs)
     log = []
 
@@ -205,8 +245,10 @@ def check_play(mido, tpb, specs, acc, max_dev):
             case = {'kind': 'play', 'tpb': tpb,
                     'tracks': [list(map(list, s)) for s in specs],
                     'meta': meta, 'deviations': [list(d) for d in devs]}
+            cstart = CLOCK_STARTS[(len(devs) + acc.evals) % len(CLOCK_STARTS)]
+            case['clock_start'] = cstart
             try:
-                out, log, start = run_play(mido, f, delays, overs, meta)
+                out, log, start = run_play(mido, f, delays, overs, meta, cstart)
             except Exception as e:
                 acc.violation(f'play-raises/{type(e).__name__}',
                               f'{case} raised {e!r}', case)
@@ -373,7 +415,11 @@ def check_case(case):
     acc = Acc()
     if case['kind'] == 'file':
         specs = [tuple(tuple(x) for x in s) for s in case['tracks']]
-        check_file(mido, case['tpb'], specs, acc)
+        FILE_VARIANT[0] = case.get('variant', 'plain')
+        try:
+            check_file(mido, case['tpb'], specs, acc)
+        finally:
+            FILE_VARIANT[0] = 'plain'
     elif case['kind'] == 'play':
         specs = [tuple(tuple(x) for x in s) for s in case['tracks']]
         check_play(mido, case['tpb'], specs, acc, 2)
